@@ -1,4 +1,5 @@
 """C06 - only objects meeting every documented field constraint can be written."""
+import sys
 import copy, json, random
 import checklib
 from checklib import Prop
@@ -33,7 +34,8 @@ def written_snapshots(fmt, obj):
 def custom_mods(name, fmt, obj, pth, part, snap, rng):
     """modifications aimed at one hand-bound (custom) rule"""
     if name == "label":
-        return [{"path": pth, "set": "label", "value": v} for v in ["GA", "RC-1", "Foo-1.0", "RC-1.0\n", "rc-1.0", "RC-1.0.0", " RC-1.0", "RC-1.0 ", 5, ["RC-1.0"], "Beta-١.٢x"]]
+        return [{"path": pth, "set": "label", "value": v} for v in ["GA", "RC-1", "Foo-1.0", "RC-1.0\n", "rc-1.0", "RC-1.0.0", " RC-1.0", "RC-1.0 ", 5, ["RC-1.0"], "Beta-١.٢x",
+                                                                 "RC-1,0", "RC-1-0", "Beta-2x1", "RC-100", "Alpha-", "Update-2.0 final", "Beta-1.x", "RC", "SecurityFix-1", "EA-1.0x"]]
     if name == "ci_uid":
         uid, vid, par = snap.get("uid"), snap.get("id"), snap.get("parent")
         vals = [str(uid) + "x", None, 5, "", "%s-" % vid, ["a"], {"$float": "1.5"}, {"$other": True}, {"a": 1}, True]
@@ -118,6 +120,42 @@ def propose(fmt, spec, rng, T, target=None):
     return None, None
 
 
+def custom_rule_cases(fmt, spec, rng, T):
+    """EVERY modification aimed at a hand-bound (custom) rule that breaks that rule and no other, for one part per (class, rule) of
+    this object: the custom rules (label, UID alignment, child arches within the parent's, container keys, …) each have a few
+    characteristic ways to be broken (e.g. a child arch set that OVERLAPS the parent's without being inside it), and drawing one
+    modification at random per case left single ones out of whole runs (seed C06-t3a after the pools changed)"""
+    try:
+        obj = V.build(fmt, spec)
+    except Exception:   # noqa
+        return
+    parts = dict(V.all_parts(fmt, obj))
+    done = set()
+    snaps = [(p_, c, s_) for (p_, c, s_) in written_snapshots(fmt, obj) if R.catalogue(c) and c != "common.Header"]
+    rng.shuffle(snaps)
+    for pth, cls, snap in snaps:
+        for rule in R.catalogue(cls):
+            if rule[0] != "custom" or (cls, rule[1]) in done:
+                continue
+            try:
+                mods = custom_mods(rule[1], fmt, obj, pth, parts[pth], snap, rng)
+            except Exception:   # noqa
+                continue
+            exact = []
+            for m in mods:
+                if "set" in m:
+                    s2 = dict(snap); s2[m["set"]] = m["value"]
+                    if len(R.violated(cls, s2, T)) == 1:
+                        exact.append(m)
+                else:
+                    exact.append(m)
+            if not exact:
+                continue
+            done.add((cls, rule[1]))
+            for m in exact:
+                yield m, "%s:%s" % (cls, json.dumps(rule)[:60])
+
+
 class C06(Prop):
     id = "C06"
     lean_module = "ProductMD.Properties.C06"
@@ -146,6 +184,19 @@ class C06(Prop):
             self._T = V.tables()
         return self._T
 
+    def extra_checks(self, ctx):
+        """a slice of the stream in a FRESH interpreter whose first validations run base classes first (harness/c06_fresh.py)"""
+        import subprocess
+        budget = 350 if ctx["tier"] == "quick" else 3000
+        try:
+            pr = subprocess.run([sys.executable, checklib.os.path.join(checklib.ROOT, "harness", "c06_fresh.py"), str(ctx["seed"]), str(budget)],
+                                capture_output=True, text=True, timeout=1200, env=dict(checklib.os.environ, PRODUCTMD_REPO=checklib.REPO))
+            out = json.loads(pr.stdout.strip().splitlines()[-1])
+        except Exception as e:   # noqa
+            raise checklib.Infra("c06_fresh worker: %s" % e)
+        ctx["dist"]["fresh_process"] = {"cases": out["n"], "parts_validated_base_first": out["prelude"], "failures": len(out["fails"])}
+        return out["fails"]
+
     # ------------------------------------------------------------------ generation
     HISTORIES = [("fresh", 25), ("dump-first", 15), ("load-first", 12), ("fail-repair", 10), ("dump-fail-repair", 8), ("two-corruptions", 10),
                  ("interleaved-twin", 10), ("reads-between", 10)]
@@ -154,6 +205,9 @@ class C06(Prop):
         """the SEQUENCE of calls on ONE object: validation state hidden in the objects (memoised validate(), flags set by an earlier
         dump or load) is only exercised when the corrupted object has a past"""
         D, M, U, L = {"do": "dumps"}, {"do": "mod", "mod": mod}, {"do": "undo"}, {"do": "reload"}
+        if isinstance(mod.get("value"), (dict, list)) and "set" in mod and rng.random() < 0.6:
+            # a container value: make the change IN PLACE (no attribute assignment) in most histories
+            M = dict(M, inplace=True)
         r = rng.randrange(100)
         acc = 0
         name = "fresh"
@@ -217,6 +271,13 @@ class C06(Prop):
                     continue
                 n += 1
                 yield self.mk(fmt, spec, [{"do": "mod", "mod": mod}, {"do": "dumps"}], tag, "fresh")
+        # every characteristic way to break each hand-bound rule, on a few objects per format (not drawn: enumerated)
+        for rnd in range(2 if tier == "quick" else 12):
+            for fmt in V.FORMATS:
+                spec = V.gen(rng, fmt, 1000 + rnd)
+                for mod, tag in custom_rule_cases(fmt, spec, rng, T):
+                    n += 1
+                    yield self.mk(fmt, spec, [{"do": "mod", "mod": mod}, {"do": "dumps"}], tag, "fresh")
         D, L = {"do": "dumps"}, {"do": "reload"}
         while n < budget:
             fmt = V.FORMATS[i % len(V.FORMATS)]
@@ -363,7 +424,7 @@ class C06(Prop):
                         obs.append({"step": idx, "dumps": "READS-CHANGED-STATE", "parts": [], "expect_reject": False, "only_nl": False, "snaps": [], "obj": None})
                         break
                 elif st["do"] == "mod":
-                    undo.append(V.apply_mod(fmt, obj, st["mod"]))
+                    undo.append(V.apply_mod(fmt, obj, st["mod"], inplace=bool(st.get("inplace"))))
                 elif st["do"] == "undo":
                     undo.pop()()
                 elif st["do"] == "reload":
